@@ -238,6 +238,7 @@ class RealRunner(wamp.ScriptRunner):
                 return base_on_message(msg)
             except Exception as e:  # noqa: BLE001 - observed, then left to the transport
                 runner.log("raise:" + wamp.exc_name(e))
+                runner.drop_refused()
                 raise
         sess.onMessage = on_message
         return sess
@@ -247,6 +248,7 @@ class RealRunner(wamp.ScriptRunner):
         self.acts, self.cur = [], []
         self.hook_acts, self.now_acts, self.mapped, self.inv_futs, self.prog_fns = {}, {}, {}, {}, {}
         self.cur_req = -1
+        self.put_now = []
         self.sess = self.make()
         import types as _types
         self.tr = _types.SimpleNamespace(fail_next=False, faults=[])     # the mock's knobs: unused here
@@ -254,6 +256,7 @@ class RealRunner(wamp.ScriptRunner):
         out = []
         for ev in script:
             self.cur = []
+            self.put_now = []
             head, _, acts = ev.partition(";")
             kind = head.split(",")[0]
             try:
